@@ -113,3 +113,6 @@ Qed.
 
 Lemma drop_last_one {A} (l : list A) x : drop_last 1 (l ++ [x]) = l.
 Proof. change 1%nat with (length [x]). apply drop_last_app. Qed.
+
+Lemma Ok_inj {A} (a b : A) : Ok a = Ok b -> a = b.
+Proof. intros H. congruence. Qed.
